@@ -211,6 +211,9 @@ def check_legality(rep, pid, tier_sizes, seed):
             continue
         for x, y in ((a, b), (b, a)):
             cases.append(["ttnew", "new " + x, "obs", "search 3 -1 0", "new " + y, "obs", "search 1 -1 0", "search 2 -1 0"])
+    # the longest lines the engine ever prints: unlimited searches of tiny positions (32 iterations, lines of up to 32 moves)
+    for f in ("8/8/8/p1k5/P7/2K5/8/8 w - - 0 1", "4k3/8/8/p1p1p1p1/PpPpPpPp/1P1P1P1P/8/4K3 w - - 0 1", "8/6k1/8/6p1/6P1/8/6K1/8 b - - 0 1"):
+        cases.append(["ttnew", "new " + f, "obs", "search - 60000 0"])
     cases += gen_histories(r, n, maxdepth, roots.ALL)
     stats, kinds = Counter(), Counter()
     stats["near_collision_pairs"] = sum(min(v, 6 if n < 1000 else 40) for v in per_kind.values())
